@@ -291,3 +291,40 @@ prop("C04",
                 "off. One known finding (dom: 'href' lost next to 'xlink:href').",
      not_decided=["whole-parse equivalence of the two builders", "getDocument/getFragment", "cloneNode", "namespaceHTMLElements=False"],
      explanation="node primitives of the etree builder against the DOM view, bounded in child count")
+
+
+prop("C01",
+     level="proof",
+     level_text="Component contracts of the tree-construction algorithm, NOT the whole algorithm: (1) proved for a stack of "
+                "open elements of any depth: generateImpliedEndTags pops exactly the run of implied-end-tag elements (the "
+                "standard's list) other than the excluded one, touches nothing else, terminates (measure: stack depth) and "
+                "does not recurse; (2) bounded stand-ins (not counted): elementInScope agrees with the standard's 'has an "
+                "element in the specific scope' for all five scopes on stacks of up to 4 elements of arbitrary names; "
+                "elementInActiveFormattingElements returns the last matching entry after the last marker (lists up to 4); "
+                "the etree builder's insertBefore keeps its shadow child list (C04 contracts serve C01); (3) ground: the scope "
+                "boundary sets, invert flags, formatting elements, headings and the special category against the standard's "
+                "tables (spec/treeconstruction.py); every insertion-mode class handles every token kind.",
+     level_note="The property quantifies over the whole parser (23 insertion modes x token kinds x stack shapes); a contract per "
+                "handler method against a transcription of the standard is out of reach of this revision, so what is decided is "
+                "the list above and nothing else -- a change inside a phase method (e.g. the adoption agency) is NOT noticed. "
+                "Known findings: template unsupported, rb/rtc unsupported, special category lags the standard.",
+     not_decided=["insertion-mode handlers (html5parser.py Phase methods)", "adoption agency algorithm", "foster parenting",
+                  "reconstruct the active formatting elements", "foreign content / integration points", "fragment parsing"],
+     explanation="helper functions over the stack of open elements and the algorithm's tables; handlers not covered")
+
+
+prop("C03",
+     level="proof",
+     level_text="Component contracts for totality, NOT the whole parser: generateImpliedEndTags terminates for every stack "
+                "(decreasing measure) without recursion and never indexes an empty stack given the html element at the bottom "
+                "(proved, any depth); elementInScope returns (never reaches its assert False) on stacks starting with html "
+                "(bounded, up to 4 elements); every insertion-mode class has a handler for every token kind and complete "
+                "dispatch tables with defaults (ground); numeric character references of any length do not raise (C14 "
+                "contract of consumeNumberEntity, tagged C03); every parse-error code has a formattable message (C16).",
+     level_note="NOT decided: termination of mainLoop's reprocessing loops, the ~20 'assert self.parser.innerHTML' sites, the "
+                "document skeleton invariant (one html root with head then body/frameset), recursion in the tree builders and "
+                "walkers on deep trees, bytes input. A change that makes a phase loop for ever or skip the implied body is NOT "
+                "noticed by this revision.",
+     not_decided=["termination of HTMLParser.mainLoop", "innerHTML-only assertions", "document skeleton invariant",
+                  "depth of recursion in tree builders/walkers/serializer on deep trees"],
+     explanation="termination and safety of the stack helpers; dispatch totality; handlers not covered")
